@@ -74,8 +74,8 @@ unsafe fn same_target<const L: usize>() {
         k += 1;
     }
     assert!(sim::all_clean(), "VERIF[C17]: restored bytes are not covered by a later flush");
-    assert!(sim::S.N_MMAP == 0 && sim::S.N_MUNMAP == 0, "VERIF[C12]: 32-bit ARM needs no trampoline but mmap/munmap was called");
     assert!(!lock_held(), "VERIF[C04]: the process-wide lock is still held after the injector is dropped");
+    assert!(sim::live_jits() == 0, "VERIF[C12]: a mapping created by an installation is still live after the injector is dropped");
     kani::cover!(thumb, "COVER: Thumb target");
     kani::cover!(!thumb, "COVER: A32 target");
 }
